@@ -325,6 +325,8 @@ type Counter struct {
 	mu     sync.Mutex
 	N      int
 	FailAt map[int]bool
+	// FailFrom > 0: every call numbered FailFrom-1 or later fails (a marshaler that stopped working)
+	FailFrom int
 }
 
 func (c *Counter) Tick() error {
@@ -332,7 +334,7 @@ func (c *Counter) Tick() error {
 	defer c.mu.Unlock()
 	i := c.N
 	c.N++
-	if c.FailAt[i] {
+	if c.FailAt[i] || (c.FailFrom > 0 && i >= c.FailFrom-1) {
 		return ErrInjected
 	}
 	return nil
@@ -342,6 +344,7 @@ func (c *Counter) Reset() {
 	c.mu.Lock()
 	c.N = 0
 	c.FailAt = nil
+	c.FailFrom = 0
 	c.mu.Unlock()
 }
 
